@@ -13,7 +13,8 @@ BOMS = [b"\x00\x00\xfe\xff", b"\xff\xfe\x00\x00", b"\xfe\xff", b"\xff\xfe", b"\x
 CHARSETS = ["latin-1", "iso-8859-1", "utf-8", "utf8", "UTF-8", "utf-16", "utf-32", "UTF-16", "utf-16le", "utf-16be", "utf-32le",
             "utf-32be", "gb2312", "GBK", "gbk", "gb18030", "ascii", "us-ascii", "cp1252", "shift_jis", "euc-kr", "big5",
             "iso-8859-15", "koi8-r", "utf-8-sig", "x-unknown", "", '"utf-8"', "identity", "none", "gzip", "base64", "rot13",
-            "hex", "br", "zstd", "deflate", "bz2", "undefined", "cp037", "utf_8", "latin1", "l1", "u8"]
+            "hex", "br", "zstd", "deflate", "bz2", "undefined", "cp037", "utf_8", "latin1", "l1", "u8", "GB2312", "Gb2312", "cp932", "big5hkscs",
+            "cp950", "cp949", "windows-1252", "hz"]
 BODY_NAMES = ["latin-1", "utf-8", "utf8", "UTF-8", "utf-16", "gb2312", "ascii", "bogus", "cp1252", "utf-16le", "shift_jis", "é", "\xff"]
 TYPES = ["text/plain", "text/html", "application/json", "application/xml", "text/xml", "text/css", "text/javascript",
          "application/ecmascript", "image/svg+xml", "application/xhtml+xml", "TEXT/HTML", "Text/Css", "garbage", "", "text",
@@ -23,6 +24,55 @@ PARAM_FORMS = ["; charset=%s", ";charset=%s", "; Charset=%s", "; charset = %s ",
                "; =%s; charset=%s"]
 PIECES = ["a", "hello", " ", "\n", "é", "ÿ", "þ", "ÿþ", "þÿ", "ï»¿", "﻿", "\x00", "€", "中文", "\U0001f600", "ß", "\xa0", "ÿþ\x00\x00",
           "\x00\x00þÿ", "<", ">", "'", '"', "?", ";", "=", "/", "@", "charset", "x" * 40]
+
+
+# families of related codecs that servers and browsers confuse; the characters on which two members disagree (one encodes it and the
+# other does not, they encode it differently, or the other decodes those bytes to something else) are drawn on purpose whenever the
+# declared charset belongs to the family
+FAMILIES = [["gb2312", "gbk", "gb18030"], ["shift_jis", "cp932"], ["big5", "big5hkscs", "cp950"], ["iso-8859-1", "cp1252"], ["euc-kr", "cp949"]]
+FAMILY_NAMES = {"gb2312": 0, "gbk": 0, "gb18030": 0, "hz": 0, "shift_jis": 1, "cp932": 1, "sjis": 1, "ms932": 1, "big5": 2, "big5hkscs": 2,
+                "cp950": 2, "latin-1": 3, "latin1": 3, "l1": 3, "iso-8859-1": 3, "cp1252": 3, "windows-1252": 3, "iso-8859-15": 3,
+                "euc-kr": 4, "cp949": 4, "uhc": 4}
+NAMED_CONFUSABLES = [["\u2015", "\u30fb", "\u00b7", "\u2014", "\u20ac"], ["\uff5e", "\u301c", "\u2225", "\u2016", "\uff0d", "\u2212", "\\", "\u00a5", "~", "\u203e"],
+                      ["\u20ac", "\u5159", "\u7881"], [chr(c) for c in (0x80, 0x85, 0x91, 0x92, 0x9f)] + ["\u20ac", "\u2019", "\u0152"], ["\u20ac", "\uac02", "\ub620"]]
+_CONF = None
+
+
+def confusables():
+    """per family: the named characters plus up to 12 computed ones (lowest code points first) per ordered codec pair"""
+    global _CONF
+    if _CONF is None:
+        out = []
+        for fam, named in zip(FAMILIES, NAMED_CONFUSABLES):
+            found = list(named)
+            for a in fam:
+                for b in fam:
+                    if a == b: continue
+                    n = 0
+                    for cp in range(0x80, 0x10000):
+                        if 0xD800 <= cp <= 0xDFFF: continue
+                        c = chr(cp)
+                        try:
+                            ea = c.encode(a)
+                        except UnicodeError:
+                            continue
+                        try:
+                            bad = ea.decode(b) != c
+                        except UnicodeError:
+                            bad = True
+                        if bad:
+                            if c not in found: found.append(c)
+                            n += 1
+                            if n >= 12: break
+            out.append(found)
+        _CONF = out
+    return _CONF
+
+
+def family_of_ct(ct):
+    p = nh.parse_content_type(ct or "")
+    cs = ((p[2].get("charset") if p else None) or "").strip('"').lower()
+    return FAMILY_NAMES.get(cs)
 
 
 def decls(name):
@@ -71,13 +121,17 @@ class Check(PropertyCheck):
     level_note = ("PARTIAL: the full statement is false for the code (F-C32a BOM-like prefix in the produced bytes, F-C32b in-body declaration "
                   "naming another codec, F-C32c BOM-emitting codec utf-16/utf-32); proved under the guard `inferEncoding ct' body' = "
                   "inferEncoding ct' []`. Codecs are parameters with the law dec n (enc n s) = s for the codec used (checked for the charset pool "
-                  "in setup()); str.lower() is modelled as ASCII lower-casing (generator avoids U+212A/U+0130). Reading back a surrogate-escaped "
+                  "in setup(); a text on which Python's own codec for the declared charset is lossy, e.g. the yen sign under shift_jis, is outside that "
+                  "assumption and not demanded); str.lower() is modelled as ASCII lower-casing (generator avoids U+212A/U+0130). Reading back a surrogate-escaped "
                   "text is taken to mean get_text(strict=False) (the strict getter raises ValueError by design, test_http pins it); the oracle "
                   "then still demands that the strict getter never returns a different string.")
     technique = "Lean 4 proof (case analysis over the inference tree, induction for parse∘assemble) + differential correspondence on Message objects"
     rule = ("texts built from ASCII/Latin-1/BMP/astral pieces, BOM-like prefixes (U+FEFF, ÿþ, þÿ, ï»¿), in-body <meta charset>/<?xml encoding?>/"
             "@charset declarations over 13 codec names, and surrogate-escaped random bytes; content types = 22 type strings x 13 parameter "
-            "spellings x 42 charset names (text, non-text and unknown codecs) or no header; plus `infer` cases: random bodies with "
+            "spellings x 50 charset names (text, non-text and unknown codecs) or no header; under a charset that belongs to a family of related "
+            "codecs (gb2312/gbk/gb18030, shift_jis/cp932, big5/big5hkscs/cp950, iso-8859-1/cp1252, euc-kr/cp949) the characters on which "
+            "the family members disagree (named ones such as U+2015, U+30FB, U+FF5E/U+301C, 0x80-0x9f, plus computed ones) are drawn on purpose, "
+            "each also once alone under every charset name of its family; plus `infer` cases: random bodies with "
             "declarations against infer_content_encoding directly. distinct = distinct (kind, content type, text/body); non-trivial = "
             "non-empty text/body.")
     budget = {"quick": 6000, "thorough": 200000}
@@ -136,7 +190,25 @@ class Check(PropertyCheck):
         # keep the domain of the statement: Unicode scalar values or surrogate-escaped bytes
         return out.encode("utf8", "surrogateescape").decode("utf8", "surrogateescape")
 
+    def _text_for(self, rng, ct):
+        """a text for this content type: when the declared charset belongs to a family of related codecs, characters on which the
+        family members disagree are mixed in"""
+        t = self._text(rng)
+        fam = family_of_ct(ct)
+        if fam is not None and rng.chance(0.6):
+            for _ in range(rng.randint(1, 3)):
+                i = rng.randint(0, len(t))
+                t = t[:i] + rng.pick(confusables()[fam]) + t[i:]
+        return t
+
     def generate(self, rng, tier):
+        # every confusable character under every charset of its family, alone and inside ASCII text
+        for fam, chars in zip(FAMILIES, confusables()):
+            names = sorted(n for n, i in FAMILY_NAMES.items() if FAMILIES[i] is fam)
+            for n in names + [x.upper() for x in names[:2]]:
+                for c in chars:
+                    yield {"k": "rt", "msg": "resp", "ct": "text/plain; charset=" + n, "text": cps(c)}
+                    yield {"k": "rt", "msg": "req", "ct": "text/html;charset=" + n, "text": cps("a" + c + "b")}
         fixed_ct = [None, "", "text/plain", "text/html", "text/css", "application/xml", "application/json", "text/javascript",
                     "text/plain; charset=utf-8", "text/plain; charset=utf-16", "text/plain; charset=ascii", "text/html; charset=latin-1",
                     "text/plain; charset=gb2312", "text/plain; charset=x-unknown", "text/plain; charset=identity"]
@@ -150,7 +222,8 @@ class Check(PropertyCheck):
                     yield {"k": "infer", "ct": ct, "body_hex": hx(d.encode("utf8", "surrogateescape") + b"\xc3\xa9")}
         while True:
             if rng.chance(0.75):
-                yield {"k": "rt", "msg": rng.pick(["resp", "req"]), "ct": self._ct(rng), "text": cps(self._text(rng))}
+                ct = self._ct(rng)
+                yield {"k": "rt", "msg": rng.pick(["resp", "req"]), "ct": ct, "text": cps(self._text_for(rng, ct))}
             else:
                 body = self._text(rng).encode("utf8", "surrogateescape")
                 if rng.chance(0.3): body = rng.pick(BOMS)[:rng.randint(1, 4)] + body
@@ -208,6 +281,8 @@ class Check(PropertyCheck):
             return ["assign: text assignment raised %s (content type %r)" % (obs["set"], case["ct"])]
         scalar = not any(0xD800 <= ord(c) <= 0xDFFF for c in text)
         want = "ok " + cps(text)
+        if self._declared_codec_lossy(case["ct"], text):
+            return fails          # the stated assumption (the Python codec reads its own output back) does not hold for this text
         # "assigning it as a message's text and reading the text back yields the same string"
         if scalar:
             if obs["strict"] != want:
@@ -232,6 +307,22 @@ class Check(PropertyCheck):
         return fails
 
     @staticmethod
+    def _declared_codec_lossy(ct, text):
+        """Python's own codec for the DECLARED charset encodes this text but does not decode it back (e.g. shift_jis maps both the yen
+        sign and the backslash to 0x5C). Depends on the header and the codec only, never on mitmproxy's inference."""
+        p = nh.parse_content_type(ct or "")
+        cs = (p[2].get("charset") if p else None) or ""
+        try:
+            if not codecs.lookup(cs)._is_text_encoding: return False
+            b = text.encode(cs)
+        except (LookupError, UnicodeError, ValueError):
+            return False
+        try:
+            return b.decode(cs) != text
+        except UnicodeError:
+            return True          # e.g. euc-kr writes U+3164 as A4 D4, which its own decoder takes for the start of a longer sequence
+
+    @staticmethod
     def _is_utf8(name):
         try:
             return codecs.lookup(name or "").name == "utf-8"
@@ -248,8 +339,23 @@ class Check(PropertyCheck):
         if chosen == seen: return None                   # the reader picked the codec that wrote the body: not a recorded defect
         body = unhx(obs["content_hex"])
         if starts_bom(body):
+            # the reader's codec must be the one the BOM sniffing names
+            if seen not in ("utf-32be", "utf-32le", "utf-16be", "utf-16le", "utf-8-sig"): return None
             return "F-C32c" if emits_bom(chosen) else "F-C32a"
-        return "F-C32b"
+        # F-C32b exactly: no usable charset parameter in the header, and the written body carries a declaration the reader scans for
+        return "F-C32b" if self._decl_in_body(uncps(obs["ct2"]) if obs["ct2"] else "", body) else None
+
+    @staticmethod
+    def _decl_in_body(ct, body):
+        import re
+        p = nh.parse_content_type(ct)
+        if p and p[2].get("charset"): return False
+        if "json" in ct: return False
+        if "html" in ct: return bool(re.search(rb"""<meta[^>]+charset=['"]?([^'">]+)""", body, re.IGNORECASE))
+        if "xml" in ct: return bool(re.search(rb"""<\?xml[^\?>]+encoding=['"]([^'"\?>]+)""", body, re.IGNORECASE))
+        if "javascript" in ct or "ecmascript" in ct: return False
+        if "text/css" in ct: return bool(re.match(rb"""@charset "([^"]+)";""", body, re.IGNORECASE))
+        return False
 
     # ------------------------------------------------------------------ model tie
     def model_lines(self, case):
@@ -304,10 +410,23 @@ class Check(PropertyCheck):
         if obs["chosen"] != obs["seen"]: out.append("reader-picks-other-codec")
         if obs["strict"] == "err": out.append("strict-raises")
         if case["ct"] is None: out.append("no-content-type")
+        if family_of_ct(case["ct"]) is not None:
+            out.append("family:" + FAMILIES[family_of_ct(case["ct"])][0])
+            if any(c in confusables()[family_of_ct(case["ct"])] for c in uncps(case["text"])): out.append("family-confusable-char")
+        if self._declared_codec_lossy(case["ct"], uncps(case["text"])): out.append("declared-codec-lossy(assumption)")
         return out
 
     def neighbours(self, case, rng):
         if case["k"] != "rt": return
+        # a model/implementation disagreement on this content type is first probed with the characters its codec family disagrees on
+        fam = family_of_ct(case["ct"])
+        t0 = uncps(case["text"])
+        for f in ([fam] if fam is not None else []) + [i for i in range(len(FAMILIES)) if i != fam]:
+            names = [case["ct"]] if f == fam else ["text/plain; charset=" + FAMILIES[f][0]]
+            for ct in names:
+                for c in confusables()[f]:
+                    yield dict(case, ct=ct, text=cps(c))
+                    yield dict(case, ct=ct, text=cps(t0 + c))
         for ct in [None, "text/plain", "text/html", "text/css", "application/xml", "text/plain; charset=utf-8", "text/plain; charset=latin-1"]:
             yield dict(case, ct=ct)
         t = uncps(case["text"])
